@@ -1,0 +1,17 @@
+//go:build verif
+
+// Contracts for package errutil, checked by /verif/govc. Comment-only: no code.
+package errutil
+
+//@ func IsCtxError
+//@ props C05
+//@ modifies nothing
+//@ ensures [nil-is-not-a-failure] imp(err == nil, result)
+//@ ensures [only-the-context-error-is-ignored] imp(result && err != nil, done(ctx) && cause(err) == result_of(ctx.Err, 0))
+//@ ensures [real-failure-is-not-ignored] imp(err != nil && !done(ctx), !result)
+
+//@ func Join
+//@ props C05 C06
+//@ modifies nothing
+//@ ensures [nil-only-if-both-nil] iff(result == nil, err1 == nil && err2 == nil)
+//@ ensures imp(err1 == nil, result == err2) && imp(err2 == nil, result == err1)
